@@ -60,7 +60,7 @@ func C08(tier common.Tier) int {
 	thorough := tier == "thorough"
 	tokens := c08Tokens()
 	run.SetRule("state = one configuration S of exclude-checks; the covering program (all 16 codes, 3 files, 2 packages) is analysed by the real ConfigReader -> IgnoreReader -> checkers path in-process (flag value or environment variable; VerifResetConfig hook between configurations) and the diagnostic set must equal the unrestricted baseline filtered by the ALL>category>code rule. Subsets are enumerated in order of cardinality. Conformance: a spread of configurations is also run on the real binary and the vet driver (flag and env) against the same reference. Non-trivial = S removes at least one and keeps at least one diagnostic.",
-		"quick: all subsets of the 22 real tokens with |S|<=2, all 2^3 sub-chains {ALL,category,code} per code, junk tokens, case/spacing variants, flag and env; thorough: all 2^22 subsets in order of cardinality under a time budget (completed cardinality reported)")
+		"quick: all subsets of the 22 real tokens with |S|<=2 in both orders, all ordered sequences with repetition of length<=3 over 7 tokens, all 2^3 sub-chains {ALL,category,code} per code, junk tokens, case/spacing variants, flag and env, each also on the program variant with inert @ignore markers; thorough: all 2^22 subsets in order of cardinality under a time budget (completed cardinality reported)")
 	run.Assume("hook: analyzer.VerifResetConfig (build tag verif, overlay) forgets the process-wide cached configuration; nothing else is replaced")
 	base := e1.IgBases()[0]
 	p := base.Program()
@@ -166,6 +166,35 @@ func C08(tier common.Tier) int {
 				}
 			}
 		}
+		// order and repetition: all ordered sequences (with repetition) of length <= 3 over a reduced token set,
+		// and all ordered pairs over the full token set
+		small := []string{"ALL", "IMM", "IMM01", "CTOR", "CTOR01", "TONL02", "XYZ"}
+		for _, a := range small {
+			for _, b := range small {
+				add(a, b)
+				for _, c := range small {
+					add(a, b, c)
+				}
+			}
+		}
+		for i := range tokens {
+			for j := range tokens {
+				if i > j {
+					add(tokens[i], tokens[j])
+				}
+			}
+		}
+		if thorough {
+			for _, a := range tokens {
+				for _, b := range tokens {
+					for _, c := range tokens {
+						if !(a < b && b < c) {
+							add(a, b, c)
+						}
+					}
+				}
+			}
+		}
 		for _, junk := range []string{"IMM0", "IMM011", "XYZ", "IM", "01", "A", "ALLL", "IMM 01", "-", "IMM01x"} {
 			add(junk)
 			add(junk, "CTOR02")
@@ -239,7 +268,8 @@ func C08(tier common.Tier) int {
 		value string
 		toks  []string
 	}
-	confs := []conf{{"ALL", []string{"ALL"}}, {"all", []string{"ALL"}}, {"", nil}, {"XYZ", []string{"XYZ"}}, {" imm01 , Ctor ", []string{"IMM01", "CTOR"}},
+	confs := []conf{{"IMM,IMM01,CTOR", []string{"IMM", "IMM01", "CTOR"}}, {"ctor01,CTOR01,tonl", []string{"CTOR01", "CTOR01", "TONL"}}, {"XYZ,IMM,XYZ,PKGO03", []string{"XYZ", "IMM", "XYZ", "PKGO03"}},
+		{"ALL", []string{"ALL"}}, {"all", []string{"ALL"}}, {"", nil}, {"XYZ", []string{"XYZ"}}, {" imm01 , Ctor ", []string{"IMM01", "CTOR"}},
 		{"IMM,CTOR,TONL,PKGO,IMPL", []string{"IMM", "CTOR", "TONL", "PKGO", "IMPL"}}, {"IMM0,IMM011", []string{"IMM0", "IMM011"}}}
 	for cat, codes := range allCodes {
 		confs = append(confs, conf{cat, []string{cat}})
